@@ -480,6 +480,11 @@ def run_gemmx_channel_launch(case, res):
         if a not in by_addr and a not in la:
             bad = f"write to undeclared register {a:#x}"
     m_writes = [v for _i, a, v in writes if a == fields["M"]]
+    if not bad and len(m_writes) >= 2 and m_writes[0] >= (1 << 31):
+        # the row count travels in a signless i32 attribute; generated marker bounds can multiply to more than 2^31 - 1 rows, which no
+        # real schedule has and which the attribute cannot carry as a positive number: outside the domain, not judged
+        R.bump(res, "channel_launch:m_beyond_i32_out_of_domain")
+        return out
     if not bad and len(m_writes) >= 2:
         if m_writes[-1] * groups != m_writes[0]:
             if m_writes[0] % groups == 0:
